@@ -13,7 +13,7 @@ import (
 func init() { register("C07", checkC07) }
 
 const bitcoinAlphabet = "123456789ABCDEFGHJKLMNPQRSTUVWXYZabcdefghijkmnopqrstuvwxyz" // Bitcoin base58 (oracle)
-const bip173Charset = "qpzry9x8gf2tvdw0s3jn54khce6mua7l"                                // BIP173 / CashAddr (oracle)
+const bip173Charset = "qpzry9x8gf2tvdw0s3jn54khce6mua7l"                             // BIP173 / CashAddr (oracle)
 
 // canReachAccept: some accept point of fn is reachable from block b.
 func canReachAccept(fn *ssa.Function, b *ssa.BasicBlock) bool {
